@@ -8,7 +8,9 @@ base = json.load(open(path)) if os.path.exists(path) else {}
 for pid in sys.argv[1:]:
     ev = json.load(open(os.path.join(V, "evidence", pid + ".json")))
     recs = ev["coverage"]["obligation_records"]
-    base[pid] = {"obligations": sorted(r["name"] for r in recs),
+    # obligations that must be generated again on every run (site-numbered obligations of the static
+    # analysis come and go with edits, so they are not required -- only re-checked when present)
+    base[pid] = {"obligations": sorted(r["name"] for r in recs if r["backend"] != "own" or r["kind"] != "frame" or "inplace" not in r["name"] and "assert" not in r["name"] and "debug_block" not in r["name"] and "ordering" not in r["name"]),
                  "proved": sorted(r["name"] for r in recs if r["status"] == "proved"),
                  "tiers": ["quick", "thorough"]}
     print(pid, len(base[pid]["obligations"]), "obligations,", len(base[pid]["proved"]), "proved")
